@@ -238,6 +238,41 @@ def check_clock(ctx):
     C12.check_next(ctx, "C07.clock")
 
 
+def check_create_race(ctx, inst="C07.create-race"):
+    """two writers that both read "absent" race for the bucket; the loser finds the entry occupied. It must go round again and be
+    judged against the record that won (replace it if newer, OlderTimestamp otherwise, add to it for a counter): from the
+    `Occupied` arm of the create path no return is reachable before the table is looked at again. Answering at once (Ok or Err)
+    drops a write that may carry the newest timestamp. insert_if_absent is the documented exception (occupied => Ok(false))."""
+    for fn in ("FeoxStore::insert_with_timestamp_and_ttl_internal", "FeoxStore::insert_bytes_with_expiry", "FeoxStore::atomic_increment_with_timestamp_and_ttl"):
+        b = ctx.fn(fn, inst)
+        if b is None:
+            continue
+        pubs = ctx.sites(b, V.PUB_NEW, inst, exact=1)
+        if not pubs:
+            continue
+        ent = [n.id for n in b.calls() if R.call_matches(n.ev, "HashMap::entry") and R.recv_expr(b, n).has_field("FeoxStore", "hash_table")]
+        # the entry call whose vacant arm feeds the publication
+        o = A.origins(b, R.recv_expr(b, b.nodes[pubs[0]]))
+        ent = [e for e in ent if ("call", e) in o]
+        ctx.check(len(ent) == 1, inst, "anchor", b.path, "the publication of a new key goes through one hash_table.entry() (found %d)" % len(ent), None)
+        if not ent:
+            continue
+        keys = A.call_roots(b, ent)
+        cand = [s_ for s_ in A.switches(b) if A.switch_info(b, s_).root.key() in keys and "Occupied" in A.switch_info(b, s_).edge_vals.values()]
+        # the match itself is the first of them; later switches on the same discriminant are drop elaboration
+        first = [s_ for s_ in cand if pubs[0] in A.reach(b, A.succs(b, s_), blocked_nodes={o_ for o_ in cand if o_ != s_}, sensitive=False)[0]]
+        ctx.check(len(first) == 1, inst, "anchor", b.path, "the Occupied arm of the create path is distinguished (found %d)" % len(first), None)
+        reads = {n.id for n in b.calls() if any(R.call_matches(n.ev, h) for h in ("HashMap::read", "HashMap::get", "HashMap::entry", "HashMap::read_async")) and
+                 R.recv_expr(b, n).has_field("FeoxStore", "hash_table")}
+        for s_ in first:
+            info = A.switch_info(b, s_)
+            others = {(s_, l) for l, v in info.edge_vals.items() if v != "Occupied"}
+            r, ps = A.reach(b, [s_], blocked_nodes=reads, blocked_edges=others)
+            bad = [x for x in b.return_nodes() if x in r]
+            ctx.check(not bad, inst, "FOLLOW", b.path, "a creator that lost the race for the bucket looks at the table again before it answers", b.where(s_),
+                      None if not bad else {"witness": R.witness(b, ps, r.get(bad[0]))})
+
+
 def check_expiry_clock(ctx):
     """increment / CAS / upsert judge `expired` against the wall clock every reader uses; a test against the version clock (which
     an explicit future timestamp pushes ahead) restarts a counter other operations still see as live (same rule as C11.pred)"""
@@ -246,6 +281,7 @@ def check_expiry_clock(ctx):
 
 
 def check(ctx):
+    check_create_race(ctx)
     check_expiry_clock(ctx)
     check_clock(ctx)
     check_retirement_walk(ctx)
